@@ -6,7 +6,7 @@ CONSTANTS
   TypesU = {5}
   AttrVals = {"", "x", "y"}
   CandTriples <- ct_thorough
-  CandRoots = {"a", "b", "g"}
+  CandRoots = {"a", "g"}
   Dangling = TRUE
   ThirdNode = FALSE
   KindsU = {0, 1}
